@@ -33,7 +33,25 @@ RULE = ("(A) callables: signature (sigmodel: positional-only / positional-or-key
         "distinct = hash of the case.")
 ASSUMPTIONS = ["'used exactly as before' is explored for construction, attribute access, method calls and abstractness; "
                "pickling/copying/metaclass conflicts are not explored (DESIGN section 7)"]
-KNOWN = {}
+KNOWN = {
+    # constructor of a multi-base class behaves differently from the twin in a program of the D23 shape
+    "D23": lambda bucket, case: bucket.startswith(("twin-bodies|new", "twin-outcome|new")) and "program" in case
+    and D.d23_shape(case["program"]),
+}
+
+D23_CASE = {
+    "part": "B", "directed": "D23",
+    "program": {"funcs": [], "classes": [
+        {"name": "K0", "bases": [], "root": "DBC", "shape": "noinit", "members": [],
+         "invs": [{"cid": 1, "on": "CALL", "lam": False, "selfarg": True, "err": {"form": "default"}}]},
+        {"name": "K1", "bases": [], "root": "DBC", "shape": "plain", "invs": [], "members": [
+            {"name": "__new__", "kind": "new", "async": False, "params": ["x", "y"], "defaults": {"x": "None", "y": "None"},
+             "decos": [], "body": {"ret": "None"}},
+            {"name": "__init__", "kind": "init", "async": False, "params": ["x", "y"], "defaults": {"x": "None", "y": "None"},
+             "decos": [], "body": {"ret": "None"}, "super": "absent"}]},
+        {"name": "K2", "bases": [0, 1], "root": "DBC", "shape": "plain", "invs": [], "members": []}]},
+    "ops": [{"op": "new", "cls": 2, "k": 0, "args": {}}],
+}
 
 
 class _Boom(Exception):
@@ -307,6 +325,8 @@ def run(ctx, tier, seed, shard, nshards):
 
     core.run_hypothesis(test_a, seed, n)
     core.run_hypothesis(test_b, seed + 1, n // 2)
+    if shard == 0:
+        check_class(ctx, dict(D23_CASE))
 
 
 def replay(ctx, case):
